@@ -667,6 +667,11 @@ impl Rasn {
             );
             if self.config.generate_from_impls {
                 let mut map = BTreeMap::new();
+                // `Tb` and `super::mb::Tb` can be the same imported type: count payload types by their own name
+                let type_key = |ty: &TokenStream| {
+                    let ty = ty.to_string();
+                    ty.rsplit("::").next().unwrap_or(&ty).trim().to_owned()
+                };
 
                 let opts = choice
                     .options
@@ -689,7 +694,7 @@ impl Rasn {
                         }
 
                         let o_name = self.to_rust_enum_identifier(&o.name);
-                        map.entry(formatted_type_name.to_string())
+                        map.entry(type_key(&formatted_type_name))
                             .and_modify(|counter| *counter += 1)
                             .or_insert(1);
                         Ok::<_, GeneratorError>((o_name, formatted_type_name))
@@ -698,7 +703,7 @@ impl Rasn {
 
                 return Ok(std::iter::once(choice_str)
                     .chain(opts.into_iter().filter_map(|(o_name, ty)| {
-                        if map[&ty.to_string()] > 1 {
+                        if map[&type_key(&ty)] > 1 {
                             return None;
                         }
                         Some(choice_from_impl_template(&name, o_name, ty))
